@@ -11,6 +11,7 @@ import Tickit.Proof.LifeTopEnd
 import Tickit.Proof.LifeFrames
 import Tickit.Proof.LifeOut
 import Tickit.Model.LifeTmp
+import Tickit.Proof.LifeTmp
 import Tickit.Gen.Life
 /-
   Property C08 — no API history touches freed or foreign memory, and everything is released.
@@ -286,13 +287,43 @@ theorem no_ub_key_handlers_unref : ∀ (ops : List Op) (st : St), SInv .none st 
 
 /-- OPEN (statement only): key and mouse events delivered to window handlers with any actions, provided that no mouse
     handler claims an event and no drag source is set (the case in which handlers claim and all handlers free nothing
-    is `no_ub_handlers_keeping`; claiming together with dropping contains the known finding). -/
+    is `no_ub_handlers_keeping`; claiming together with dropping contains the known finding).  Proved of it:
+    `handle_mouse_any_actions_no_claim` below (the recursion of `_handle_mouse` itself).  Missing: (a) "no drag source
+    is set" through `_handle_mouse` (`Shr` of Proof/LifeFrames.lean needs a field for it as it has for "nothing claims";
+    `Casc.drag_sub` is proved in Proof/LifeDestroy.lean but not exported by `unrefT_ok` / `unrefW_ok`, and the lemmas for
+    hide / show / restack do not speak of the root's fields); (b) the wrappers of `on_term_mouse` (`FK` under `setRoot`,
+    `mousePrepare` / `mouseDeliver` with no drag source: every `unrefOpt` is on `none`, `dragStop` / `dragOutside` do
+    nothing); (c) both invariants through the operations that deliver no event (the analogue of `step_plain_keeps`). -/
 def no_ub_mouse_handlers_unref : Prop :=
   ∀ (ops : List Op) (st : St), SInv .none st → st.tree.root.dragSource = none →
     (∀ i b, b ∈ (getX st i).binds → b.ev = some .mouse → b.ret = false) →
     (∀ op ∈ ops, (op.plain = true ∨ op.penEvent = true ∨ op = .key ∨ ∃ m, op = .mouse m) ∧
       (∀ w ret acts, op = .bind w .mouse ret acts → ret = false)) →
     ∃ st', runOps extracted st ops = .ok st' ∧ SInv .none st'
+
+/-- **`_handle_mouse` with handlers of any actions, nothing claiming**: in every state between two operations in which
+    no mouse handler returns true, `_handle_mouse(root, info)` - the whole recursion over the counted snapshots of the
+    children, with handlers that drop their own window, its ancestors, the root window, anything - runs to its end,
+    returns no window, gives back every reference it took (the invariant of `no_ub` holds again: every count is the
+    application's tally) and still nothing claims.  Proof/LifeFrames.lean (`handleMouse_FK`): as no window is returned,
+    the references in flight are the frames' own and their snapshots', which obey the stack discipline of `_handle_key`. -/
+theorem handle_mouse_any_actions_no_claim (st : St) (info : Mouse) (inv : SInv .none st)
+    (hnc : ∀ i b, b ∈ (getX st i).binds → b.ev = some .mouse → b.ret = false) (r : WinTree.Win) (hr : LiveW st.tree 0 r) :
+    ∃ st', handleMouse extracted (routeFuel st) st 0 info = .ok (st', none) ∧ SInv .none st' ∧
+      (∀ i b, b ∈ (getX st' i).binds → b.ev = some .mouse → b.ret = false) := by
+  obtain ⟨r0, hr0, _, hrp⟩ := inv.tinv.root_ex
+  have : r0 = r := by rw [hr.1] at hr0; exact (Option.some.inj hr0).symm
+  subst this
+  obtain ⟨st', h, K', S'⟩ := handleMouse_FK extracted_repaired (routeFuel st) info (FK.of_inv inv Ghost.none_covers) hnc hr
+    (fun p hp => by rw [hrp] at hp; cases hp) (belowFree_root inv.tinv Ghost.none_covers) (by simp only [routeFuel]; omega)
+  exact ⟨st', h, K'.inv, S'.nc hnc⟩
+
+/-- Non-vacuity: a mouse handler on a grandchild that drops its own window, its parent and the root window without
+    claiming; `_handle_mouse` on the root returns no window. -/
+example : (match runOps extracted {} [.newTerm 6 12 false, .win 0 ⟨0, 0, 4, 8⟩ 0, .win 1 ⟨0, 0, 2, 4⟩ 0,
+      .bind 2 .mouse false [.unref 2, .unref 1, .unref 0]] with
+    | .ok st => (match handleMouse extracted (routeFuel st) st 0 ⟨1, 1, 1, 1⟩ with | .ok (st', none) => st'.log.length | _ => 99)
+    | _ => 98) = 1 := by decide +kernel
 
 /-- Instances the kernel can evaluate: a key handler that drops its own window, its parent and the root window
     (`no_ub_key_handlers_unref`); a mouse handler that does the same without claiming the event (the open statement). -/
@@ -931,10 +962,54 @@ example : (match IoSt.dispatch ioFuel 0 ((({} : IoSt).watch { ready := true, act
 
 /-! ## the scratch block of a render buffer (runs of LINE cells in `tickit_renderbuffer_flush_to_term`) -/
 
-/-- Full statement (open): whatever the block holds and however long the run, the terminal is sent exactly the UTF-8 of
-    the run's characters — every byte read had been written, none lies beyond the block. -/
-def linerun_sends_what_was_written : Prop :=
-  ∀ (t : Tmp) (cps : List Nat), 6 ≤ t.size → ∃ t', t.lineRun cps = .ok (t', cps.flatMap utf8Bytes)
+/-- **linerun_sends_what_was_written**: whatever the block holds and however long the run, the terminal is sent exactly
+    the UTF-8 of the run's characters — every byte read had been written, none lies beyond the block (`Tmp.read` fails on
+    either).  The premise `6 ≤ t.size` is what makes one doubling enough for any sequence (the library allocates 256). -/
+theorem linerun_sends_what_was_written :
+    ∀ (t : Tmp) (cps : List Nat), 6 ≤ t.size → ∃ t', t.lineRun cps = .ok (t', cps.flatMap utf8Bytes) :=
+  fun t cps h => let ⟨t', h', _⟩ := Tmp.lineRun_ok t cps h; ⟨t', h'⟩
+
+/-- **tmp_cat_keeps_block**: one `tmp_cat_utf8` on a block that holds `bs` in `tmp[0 .. tmplen)` with `tmplen ≤ tmpsize`:
+    afterwards it holds `bs` followed by the character's bytes (a `realloc` on the way keeps what was written),
+    `tmplen ≤ tmpsize` again, and the block has not shrunk. -/
+theorem tmp_cat_keeps_block (t : Tmp) (bs : List UInt8) (cp : Nat) (h : t.Holds bs) :
+    (t.catUtf8 cp).Holds (bs ++ utf8Bytes cp) ∧ t.size ≤ (t.catUtf8 cp).size := h.cat cp
+
+/-- **linerun_block_inv**: after a run of any length `tmplen ≤ tmpsize`, the bytes below `tmplen` are exactly the ones
+    sent, and the block is at least as large as before. -/
+theorem linerun_block_inv (t : Tmp) (cps : List Nat) (h : 6 ≤ t.size) :
+    ∃ t', t.lineRun cps = .ok (t', cps.flatMap utf8Bytes) ∧ t'.len ≤ t'.size ∧
+      t'.mem.take t'.len = (cps.flatMap utf8Bytes).map some ∧ t.size ≤ t'.size :=
+  let ⟨t', h', inv, hs⟩ := Tmp.lineRun_ok t cps h; ⟨t', h', inv.fits, inv.written, hs⟩
+
+/-- **flush_lineruns_send_what_was_written**: all LINE runs of a buffer, row after row through the one scratch block as
+    `tickit_renderbuffer_flush_to_term` uses it: every run is sent as the UTF-8 of its glyphs, whatever `linemask_to_char[]`
+    is and however wide the buffer. -/
+theorem flush_lineruns_send_what_was_written (glyph : Int → Nat) (b : RBObj) (t : Tmp) (h : 6 ≤ t.size) :
+    ∃ t', flushLineRuns glyph b t = .ok (t', (b.cells.toList.flatMap (fun row => lineRunsOfRow row.toList)).flatMap
+      (fun run => (run.map glyph).flatMap utf8Bytes)) := by
+  obtain ⟨t', h', _⟩ := lineRuns_ok ((b.cells.toList.flatMap (fun row => lineRunsOfRow row.toList)).map (List.map glyph)) t [] h
+  refine ⟨t', ?_⟩
+  unfold flushLineRuns
+  rw [List.foldlM_map] at h'
+  rw [h']
+  simp [List.flatMap_map]
+
+/-- The hypotheses are satisfiable and the statement bites: the block a buffer starts with, a run that needs two doublings. -/
+example : 6 ≤ ({} : Tmp).size := by decide +kernel
+example : ({} : Tmp).Holds [] := ⟨by decide +kernel, by decide +kernel, by decide +kernel⟩
+example : ∃ t', ({} : Tmp).lineRun (List.replicate 200 0x2500) = .ok (t', (List.replicate 200 0x2500).flatMap utf8Bytes) ∧ 256 < t'.size := by
+  obtain ⟨t', h, inv, _⟩ := Tmp.lineRun_ok {} (List.replicate 200 0x2500) (by decide +kernel)
+  refine ⟨t', h, ?_⟩
+  have h1 := inv.fits
+  have h2 : t'.len = 600 := by
+    have := congrArg List.length inv.written
+    rw [List.length_take, List.length_map] at this
+    have h3 : ((List.replicate 200 0x2500).flatMap utf8Bytes).length = 600 := by decide +kernel
+    unfold Tmp.size at h1; omega
+  omega
+/-- The premise cannot be dropped: a 2-byte block doubled once has no room for a 6-byte sequence (the library's is 256). -/
+example : (match ({ mem := [none, none] } : Tmp).lineRun [0x4000000] with | .ub .mem _ => true | _ => false) = true := by decide +kernel
 
 /-- Instances: runs of 85, 86 and 200 box-drawing characters through the 256-byte block the buffer starts with (86 is
     the first length at which `tmp_cat_utf8` has to grow it). -/
